@@ -366,7 +366,7 @@ MANIFEST_TEXT = {
         technique="deterministic simulation: seeded operation histories with several handles on shared memory against a reference model, allocator fault injection, dirty caller memory",
     ),
     "C05": dict(
-        text="fault enumeration inside seeded histories: every sampled history over three variants with trivial, nothrow-movable, throwing-copy and throwing-move alternatives (plus two further alternative sets: defaulted-assignment alternatives with registered lifetimes, and all-trivially-destructible alternatives with throwing constructors and NaN doubles) is executed fault-free and then once for every (step, k) with a throw injected at the k-th constructor/assignment reached in that step; a lifetime registry checks construct-once/destroy-once/no-use-after-destruction, every observer must agree with the model, results without a throw are std::variant's, results after a throw satisfy the property's disjunction (valueless, pre-call value, or requested value)",
+        text="fault enumeration inside seeded histories: every sampled history over three variants with trivial, nothrow-movable, throwing-copy and throwing-move alternatives (plus further alternative sets: reference and const-reference closures of one type in one variant, defaulted-assignment alternatives with registered lifetimes, and all-trivially-destructible alternatives with throwing constructors and NaN doubles) is executed fault-free and then once for every (step, k) with a throw injected at the k-th constructor/assignment reached in that step; a lifetime registry checks construct-once/destroy-once/no-use-after-destruction, every observer must agree with the model, results without a throw are std::variant's, results after a throw satisfy the property's disjunction (valueless, pre-call value, or requested value)",
         design_ref="4.4",
         note="histories are sampled, fault positions inside each sampled history are enumerated; the table-based visitation path does not exist on this toolchain",
         technique="deterministic simulation with fault injection: injected throws at enumerated fault points, lifetime registry, reference model of std::variant semantics",
@@ -390,25 +390,25 @@ MANIFEST_TEXT = {
         technique="deterministic simulation: seeded multi-actor histories against a reference model, dirty-memory placement",
     ),
     "C12": dict(
-        text="seeded walks of two iterator-holding actors over every iterator kind built on the xtl iterator bases, each step's result compared with index arithmetic (it++ returns the old position, (it+n)-it==n, it[n]==*(it+n), n+it==it+n, it-n undoes it+n, a<b iff b-a>0, <= > >= reversals, != negation, full traversals, size_t overloads). This is the weakest claim: the property has histories but no fault, clock or environment for the simulator to control",
+        text="seeded walks of two iterator-holding actors over every iterator kind built on the xtl iterator bases, among them stepping iterators over xtl's own iterators and over list iterators, const overloads, and offsets, steps and sizes of 2^31 and more; each step's result compared with index arithmetic (it++ returns the old position, (it+n)-it==n, it[n]==*(it+n), n+it==it+n, it-n undoes it+n, a<b iff b-a>0, <= > >= reversals, != negation, full traversals, size_t overloads). This is the weakest claim: the property has histories but no fault, clock or environment for the simulator to control",
         design_ref="4.8",
         note="sampled walks; purely a stateful differential check against an index model",
         technique="deterministic simulation (degenerate: seeded walker histories against an index model, no fault dimension)",
     ),
     "C14": dict(
-        text="hash coherence across simulated histories: std::hash of every fixed string equals the reference MurmurHash64A of its characters after every step, equal contents reached by different histories (different stale bytes), in different layouts and capacities hash equally; the byte hashes are additionally evaluated on the buffers the simulation produces at every alignment in exact-size blocks against an independent reference (that half is evaluation of a pure function on simulated states and is reported under its own counter)",
+        text="hash coherence across simulated histories: std::hash of every fixed string equals the reference MurmurHash64A of its characters after every step, equal contents reached by different histories (different stale bytes), in different layouts and capacities hash equally; the byte hashes are additionally evaluated on the buffers the simulation produces (also keys of several kilobytes and the empty key given as a null pointer) at every alignment in exact-size blocks against an independent reference (that half is evaluation of a pure function on simulated states and is reported under its own counter)",
         design_ref="4.9",
         note="the pure half is sampled evaluation of a pure function, not more; little-endian 64-bit platform only",
         technique="deterministic simulation: hash invariants over seeded histories, placement/alignment/stale-byte variation, independent reference implementation",
     ),
     "C17": dict(
-        text="seeded registration/erasure/dispatch histories against every dispatcher kind (map and fast functor dispatchers with 1-3 arguments and both casting policies, static dispatcher symmetric and antisymmetric, acyclic and cyclic visitors), with recording handlers: a dispatch must run exactly the handler the model holds for the tuple of dynamic types with the caller's own objects in registered order and the extra argument itself, or report an error and run nothing; registrations of the functor dispatchers also meet injected allocation failures, after which only the previous or the attempted handler (or an error if there was none) may answer for that tuple",
+        text="seeded registration/erasure/dispatch histories against every dispatcher kind (map and fast functor dispatchers with 1-3 arguments and both casting policies, static dispatcher symmetric and antisymmetric, acyclic and cyclic visitors), with recording handlers: a dispatch must run exactly the handler the model holds for the tuple of dynamic types with the caller's own objects in registered order and the extra argument itself, or report an error and run nothing; an exception thrown by a handler must reach the caller unchanged; registrations of the functor dispatchers also meet injected allocation failures, after which only the previous or the attempted handler (or an error if there was none) may answer for that tuple",
         design_ref="4.10",
         note="sampled histories over a four-class hierarchy; the fault dimension is the error path (lookups that must fail), allocation failure inside registrations, and the lazily assigned process-global class indices",
         technique="deterministic simulation: seeded registration/lookup histories against a reference map, error-path injection, reset of process-global state per run",
     ),
     "C20": dict(
-        text="fault enumeration inside seeded histories: every /proc/self/exe target length 2..PATH_MAX-1 is delivered through the wrapped readlink (sweep configuration), each also with an injected error return, plus seeded random histories biased to the buffer boundaries; results compared byte for byte with the simulated target, under ASan/UBSan and in a plain build with a dirtied stack",
+        text="fault enumeration inside seeded histories: every /proc/self/exe target length 2..PATH_MAX-1 is delivered through the wrapped readlink (sweep configuration), each also with an injected error return, plus seeded random histories biased to the buffer boundaries with arbitrary name bytes and tails such as \" (deleted)\"; every simulated installation runs in a process of its own, so results may be cached; results compared byte for byte with the simulated target, under ASan/UBSan and in a plain build with a dirtied stack",
         design_ref="4.11",
         note="trusts the wrapper's model of Linux readlink (silent truncation, no terminator, errno); only the Linux branch is compiled; samples path shapes, enumerates lengths",
         technique="deterministic simulation with fault injection: simulated readlink syscall (link-time wrap), enumerated lengths and error returns, seeded path shapes",
